@@ -28,7 +28,7 @@ ASSUMPTIONS = [
     "x / 100.0 is the Section variable fdiv100 of the Coq model, instantiated in the OCaml driver by hardware IEEE-754 division (RKFloat.v relates it to Flocq's b64_div)",
     "UTF-16LE decoding is the Section variable decode16 (string decoding is C12/C19); instantiated by a UTF-16 decoder with U+FFFD replacement",
     "the formula token stream (r.data[20..], parse_formula) is opaque to the model: generated formulas use a valid rgce; a panic inside parse_formula on a malformed rgce is C14/C06 material",
-    "cell records are in non-decreasing row order in the theorems (the proofs use C05's specification of the pre-3140dd1 Range::from_sparse; Excel writes row blocks in order); out-of-order records are exercised as malformed input against the model of the current from_sparse (model = implementation, all cells kept)",
+    "cell records may come in any row order (theorem and generator: 15 % of the sheets shuffle their row blocks); within a row the generator keeps column order",
     "allocation (cells.reserve from DIMENSIONS, the dense range) is not modelled; generated bounding boxes stay below 2^18 cells",
     "records between a FORMULA and its STRING are of types the sheet loop ignores (SHRFMLA, ARRAY, TABLE, any non-interpreted type); an ARRAY / SHRFMLA body itself continued in CONTINUE records is not in the layout type (the framing of such runs is exercised by the recs cases)",
     "a FormulaValue that announces a string with no STRING record after it is treated as malformed (no value cell; model = implementation), not as a legal layout",
@@ -604,6 +604,8 @@ def choose_layout(rng, env, sheet, all_number=False, cont=True):
     order, numbers as NUMBER or any RK form, RK neighbours grouped into MULRK runs at random"""
     cells = []
     rows = sorted(set(p[0] for p in sheet))
+    if rng.random() < 0.15:          # row blocks in any order: legal, Range::from_sparse searches all bounds
+        rng.shuffle(rows)
     for r in rows:
         cols = sorted(c for (rr, c) in sheet if rr == r)
         run = []           # pending RK-encoded neighbours
@@ -652,7 +654,7 @@ def choose_layout(rng, env, sheet, all_number=False, cont=True):
     row_blocks = rng.random() < 0.4
     out = []
     if row_blocks and rows:
-        out.append({"k": "raw", "typ": 0x020B, "body": struct.pack("<IIII", 0, rows[0], rows[-1] + 1, 0) +
+        out.append({"k": "raw", "typ": 0x020B, "body": struct.pack("<IIII", 0, min(rows), max(rows) + 1, 0) +
                     struct.pack("<I", rng.getrandbits(20))})
     last_row, block = None, 0
     for c in cells:
@@ -879,7 +881,6 @@ def run_files(ctx, n_files, tag):
                 if c.get("cont"):
                     ctx.count("layout:string-continue:" + ("chars" if any(u for u, _ in c["cont"]) else "flag-only"))
         ctx.count("file:sheets")
-        known_here = any(c["k"] == "formula" and any(u for u, _ in c.get("cont", [])) for c in cells)
         if raw:
             mm, spec_coq = m, None
         else:
@@ -893,27 +894,19 @@ def run_files(ctx, n_files, tag):
                 ctx.disagreements.append({"function": "encoder(E vs xlsgen)", "case": enc_lines[n][:600],
                                           "impl": sub.hex()[:400], "model": enc_hex[:400]})
                 continue
-            if wf != "1" or srt != "1":
+            ctx.count("layout:rows-" + ("ascending" if srt == "1" else "any-order"))
+            if wf != "1":
                 ctx.disagreements.append({"function": "legal(generator)", "case": enc_lines[n][:600], "impl": i, "model": m[:200]})
                 continue
-            if (known != "-") != known_here or known not in ("-", "1"):
-                ctx.disagreements.append({"function": "known_C02(generator vs Coq)", "case": enc_lines[n][:600],
-                                          "impl": str(known_here), "model": known})
+            if known != "-":
+                ctx.disagreements.append({"function": "known_C02 (no class is registered)", "case": enc_lines[n][:600],
+                                          "impl": "-", "model": known})
                 continue
             why = check_range_against(exp, spec_coq)
             if why:
                 ctx.disagreements.append({"function": "spec(Coq range_of vs oracle): " + why, "case": enc_lines[n][:600],
                                           "impl": i, "model": spec_coq[:300]})
                 continue
-        if known_here:
-            # known class StringContinue: the reader keeps the STRING record's own characters.
-            # Everything else in the sheet is still held to the property.
-            ctx.count("known:StringContinue")
-            if check_range_against(exp, i) is not None:
-                ctx.known_hits["StringContinue"] = file_lines[n] + "\t#items: " + enc_lines[n][:600]
-                for c in cells:
-                    if c["k"] == "formula" and any(u for u, _ in c.get("cont", [])):
-                        exp[(c["r"], c["c"])] = ("val", "S" + units_text(c["cached"][1]).encode("utf-8").hex())
         why = check_range_against(exp, i)
         if why:
             ctx.violations.append({"case": file_lines[n] + "\t#items: " + enc_lines[n][:1500], "expected": spec_coq or str(sorted(exp.items()))[:600],
@@ -964,7 +957,7 @@ def run_equiv(ctx, n, tag):
         env = gen_env(rng)
         logical = gen_logical(rng, env)
         for v, alln in (("a", True), ("b", False), ("c", False)):
-            cells = choose_layout(rng, env, logical, all_number=alln, cont=False)   # not the known class
+            cells = choose_layout(rng, env, logical, all_number=alln)
             wb = wb_for(env, [{"name": "S", "cells": cells}])
             path = os.path.join(TMP, "%s%d%s.xls" % (tag, k, v))
             with open(path, "wb") as f:
@@ -1135,14 +1128,14 @@ CORPUS_FILES = [
         {"k": "raw", "typ": 0x00D7, "body": struct.pack("<IHH", 100, 20, 30)}]),
     # CONTINUE records holding only their flag byte: nothing is lost
     ("string-continue-flag-only", [{"k": "formula", "r": 1, "c": 1, "cached": ("str", [0x61, 0x62], False), "cont": [([], False), ([], True)]}]),
-    # known class StringContinue: "ab" in STRING, "c€" in CONTINUE
+    # the former known class StringContinue: "ab" in STRING, "c€" in CONTINUE
     ("string-continue", [{"k": "formula", "r": 1, "c": 1, "cached": ("str", [0x61, 0x62], False), "cont": [([0x63, 0x20AC], True)],
                           "between": [(0x04BC, xlsgen.shrfmla_body(1, 2, 1, 1))], "rgce": xlsgen.ptg_exp(1, 1), "grbit": 8}]),
-    # the same class where the cut is forced: =REPT("x",9000), 8220 characters fill the STRING record
+    # the same where the cut is forced: =REPT("x",9000), 8220 characters fill the STRING record
     ("string-continue-long", [{"k": "formula", "r": 0, "c": 0, "cached": ("str", [0x78] * 8220, False), "cont": [([0x78] * 780, False)]},
                               {"k": "number", "r": 1, "c": 0, "bits": f64_bits(9000.0)}]),
 ]
-KNOWN_CORPUS = ("string-continue", "string-continue-long")
+
 
 def run_corpus(ctx):
     os.makedirs(TMP, exist_ok=True)
@@ -1180,16 +1173,10 @@ def run_corpus(ctx):
             ctx.disagreements.append({"function": "encoder(E vs xlsgen)", "case": enc_lines[n], "impl": sub.hex()[:300], "model": (m or "")[:300]})
             continue
         why = check_range_against(exp, i)
-        if why and f[3] == "1" and lab in KNOWN_CORPUS:
-            ctx.known_hits["StringContinue"] = file_lines[n] + "\t#" + enc_lines[n]
-            if not same_range(i, f[5][6:]):
-                ctx.disagreements.append({"function": "sheet_model", "case": enc_lines[n], "impl": i, "model": m[-400:]})
-        elif (f[3] != "-") != (lab in KNOWN_CORPUS):
-            ctx.disagreements.append({"function": "known_C02(corpus)", "case": enc_lines[n], "impl": lab, "model": f[3]})
-        elif why:
+        if why:
             ctx.violations.append({"case": file_lines[n] + "\t#" + enc_lines[n], "expected": f[4][5:], "actual": i,
                                    "model": f[5][6:], "what": "corpus %s: %s" % (lab, why)})
-        elif not same_range(i, f[5][6:]) or f[1] != "1" or f[2] != "1":
+        elif not same_range(i, f[5][6:]) or f[1] != "1":
             ctx.disagreements.append({"function": "sheet_model", "case": enc_lines[n], "impl": i, "model": m[-400:]})
         else:
             ctx.nontrivial(sub.hex())
